@@ -144,6 +144,7 @@ fn pass_2_internal(segment: &Segment, common_context: &CommonContext) -> Result<
             }
             Item::Set(name, expr) => {
                 let value = expr.run(common_context)?;
+                let name = &name.to_lowercase();
                 if common_context.exist(name) {
                     let mut sets = common_context.sets.borrow_mut();
                     if let Some(_) = sets.get(name) {
